@@ -213,7 +213,7 @@ def filterseq_truth(I, o):
     return False
 
 
-def while_rule(name, state_at, check_inv, variant=None):
+def while_rule(name, state_at, check_inv, variant=None, allow_break=False):
     """while-loop rule with an inductive invariant and (optionally) a termination variant.
     state_at(I, env, tag) havocs the loop-carried state and assumes the invariant;
     check_inv(I, env) -> [(label, formula)] evaluated on the actual state;
@@ -236,7 +236,12 @@ def while_rule(name, state_at, check_inv, variant=None):
             except _Continue:
                 pass
             except _Break:
-                raise Unsupported('break inside a while loop verified by invariant')
+                if not allow_break:
+                    raise Unsupported('break inside a while loop verified by invariant')
+                # leaving the loop from an arbitrary iteration whose entry state satisfies the invariant: execution continues after
+                # the loop (the else-clause is skipped); this iteration needs no variant decrease
+                ctx.effect('loop-break', name)
+                return None
             for label, f in check_inv(I, env):
                 ctx.oblige('while[%s]-invariant-preserved: %s' % (name, label), f)
             if v0 is not None:
